@@ -103,7 +103,7 @@ CORPUS = [
     (B, "C19", "view/_solid.py", "tovoigt(stress.mean(-2)).T", "tovoigt(stress.mean(-1)).T"),
     # ---- C20
     (B, "C20", "tools/_save.py", 'point_data["Displacements"] = u.values', 'point_data["Displacements"] = u.values * 2'),
-    (B, "C20", "mesh/_container.py", "self.meshes[i].points = self.points = points\n\n    def pop", "self.points = points\n\n    def pop"),
+    (B, "C20,C16", "mesh/_container.py", "        for m in self.meshes:\n            m.update(points=points)\n\n    def pop", "        for m in self.meshes:\n            m.points = points\n\n    def pop"),
     # ---- further classes learnt from the sub-agent round (falsy guards, aliasing, configuration-specific slips)
     (B, "C02", "assembly/expression/_bilinear.py", "            aibj = zip(idx_a.ravel(), idx_i.ravel(), idx_b.ravel(), idx_j.ravel())\n\n            def contribution", "            aibj = zip(*np.indices(values.shape[:4]).reshape(4, -1))\n\n            def contribution"),
     (B, "C18,C01", "tools/_newton.py", "if body.assemble.multiplier is not None:\n            K *= body.assemble.multiplier", "if body.assemble.multiplier:\n            K *= body.assemble.multiplier"),
